@@ -480,6 +480,33 @@ fn hostile(out: &mut impl Write, rng: &mut Rng, n: usize, count: &mut u64) {
     }
 }
 
+/// capacities above 8192 (the default size of a std BufWriter): the inner BufWriter must be sized to
+/// the configured capacity, not to a default or a capped preallocation
+fn large_caps(out: &mut impl Write, rng: &mut Rng, count: &mut u64) {
+    for &cap in &[8193usize, 8932, 9000, 16384, 70000] {
+        for variant in 0..4 {
+            let lens: Vec<Option<usize>> = match variant {
+                // one very large metric that still fits, then a small one
+                0 => vec![Some(cap - 500), Some(10), None],
+                // many ordinary metrics adding up to exactly 8192 buffered bytes, then more
+                1 => {
+                    let mut v: Vec<Option<usize>> = (0..127).map(|_| Some(63)).collect();
+                    v.push(Some(64));
+                    v.push(Some(63));
+                    v.push(Some(20));
+                    v
+                }
+                // exact fit of the whole capacity, and an oversize one
+                2 => vec![Some(8191), Some(cap.saturating_sub(8194)), Some(30), Some(cap + 1), Some(5)],
+                _ => (0..rng.range(3, 12)).map(|_| Some(rng.below(4000) as usize)).collect(),
+            };
+            let oracle: Vec<Outcome> = if variant == 3 && rng.chance(50) { vec![Outcome::Err(10)] } else { vec![] };
+            emit_case(out, cap, b"\n", &oracle, &lens);
+            *count += 1;
+        }
+    }
+}
+
 fn spy_cases(out: &mut impl Write, rng: &mut Rng, n: usize, count: &mut u64) {
     for i in 0..n {
         let cap: Option<usize> = match rng.below(6) {
@@ -550,6 +577,7 @@ fn main() {
         random_cases(&mut out, &mut rng, 3000, 60, &mut count);
         random_cases(&mut out, &mut rng, 30, 2000, &mut count);
         hostile(&mut out, &mut rng, 1500, &mut count);
+        large_caps(&mut out, &mut rng, &mut count);
         spy_cases(&mut out, &mut rng, 600, &mut count);
     } else {
         exhaustive(&mut out, &[0, 1, 2, 3, 4, 5, 6], &[0, 1, 2, 3], 4, 3, &mut count);
@@ -557,6 +585,9 @@ fn main() {
         random_cases(&mut out, &mut rng, 100000, 80, &mut count);
         random_cases(&mut out, &mut rng, 600, 2000, &mut count);
         hostile(&mut out, &mut rng, 50000, &mut count);
+        for _ in 0..10 {
+            large_caps(&mut out, &mut rng, &mut count);
+        }
         spy_cases(&mut out, &mut rng, 20000, &mut count);
     }
     eprintln!("mlw: {} cases", count);
